@@ -165,7 +165,9 @@ pub fn path_valid<const M: usize, const N: usize>(p: &Params, x: &[u8; M], y: &[
             }
             AlignmentOperation::Xclip(l) => {
                 assert!(clips_kept, "C01: clip operation left in a filtered alignment");
-                if phase == 0 && i == al.xstart && j == al.ystart && xpre == 0 && l == al.xstart && al.xstart > 0 {
+                if l == 0 {
+                    // a zero-length clip consumes nothing and costs nothing under the documented model: tolerated anywhere
+                } else if phase == 0 && i == al.xstart && j == al.ystart && xpre == 0 && l == al.xstart && al.xstart > 0 {
                     xpre = l;
                 } else {
                     phase = 2;
@@ -175,7 +177,8 @@ pub fn path_valid<const M: usize, const N: usize>(p: &Params, x: &[u8; M], y: &[
             }
             AlignmentOperation::Yclip(l) => {
                 assert!(clips_kept, "C01: clip operation left in a filtered alignment");
-                if phase == 0 && i == al.xstart && j == al.ystart && ypre == 0 && l == al.ystart && al.ystart > 0 {
+                if l == 0 {
+                } else if phase == 0 && i == al.xstart && j == al.ystart && ypre == 0 && l == al.ystart && al.ystart > 0 {
                     ypre = l;
                 } else {
                     phase = 2;
